@@ -148,7 +148,7 @@ def run(ctx):
         # the slice (player p's probs) and the lengths (num_actions of player p's infosets) belong to the same player
         same, how = q.same_player(a0, a1, 'probs', 'player_infosets')
         cf, _ = q.closure_of(lib, a1)
-        lens_ok = q.maps_num_actions(lib, cf)
+        lens_ok = q.maps_num_actions(lib, cf) or q.maps_num_actions(lib, q.find_sub(a1, lambda x: x[0] == 'fn'))
         detail = '%s; lengths via num_actions: %s' % (how, lens_ok)
         if same is None or (same and not lens_ok):
             ctx.anchor_lost(rule, 'truncate: pairing of probs with player_infosets', detail)
